@@ -91,6 +91,51 @@ def run_chardata(out, prop, tier, wd):
     return tot
 
 
+def run_attrs(out, prop, tier, wd):
+    """the attributes of one element as a state machine (ElemAttrs.tla): every edge + walks"""
+    dump = os.path.join(wd, "ea.out")
+    mc = C.run_tlc("MC_ElemAttrs", "MC_ElemAttrs.cfg", "eamc", to_file=dump, workers=4, timeout=1500, keep_tags=["NODE"])
+    C.tlc_must_pass(mc, "MC_ElemAttrs")
+    out.add_tlc(mc)
+    trace = os.path.join(wd, "ea.trace")
+    so = C.run_harness(["dom-attrs", "--in", dump, "--out", trace, "--walks", "60" if tier == "quick" else "600",
+                        "--seed", str(C.seed())], timeout=3000)
+    st = json.loads(so.strip().splitlines()[-1])
+    os.unlink(dump)
+    n = C.count_lines(trace)
+    cfgname = "Trace_ElemAttrs.%d.cfg" % os.getpid()
+    cfg = os.path.join(C.SPEC, cfgname)
+    C.write_cfg(cfg, ["SPECIFICATION Spec", "CONSTANT Names <- NamesM", "CONSTANT Values <- ValuesM", "CONSTANT Def <- DefM",
+                      "CONSTANT Open = %s" % C.tla_set(out.open.keys()), "POSTCONDITION Done", "CHECK_DEADLOCK FALSE"])
+    try:
+        res = C.run_tlc("Trace_ElemAttrs", cfgname, "eatv", env={"TRACE": trace}, workers=1, deque=True, timeout=3000,
+                        xmx="4g")
+    finally:
+        os.unlink(cfg)
+    C.tlc_must_pass(res, "Trace_ElemAttrs")
+    if res.distinct != n + 1:
+        raise C.ToolError("trace validation visited %d states for %d events" % (res.distinct, n))
+    events = None
+    k = KEY[prop]
+    for t, v in res.lines:
+        if t == "TRUNCATED":
+            raise C.ToolError("trace validation consumed only part of the trace")
+        if t != "VERDICT":
+            continue
+        pv = v.get(k, {})
+        if pv.get("v") in ("ok", None):
+            continue
+        if events is None:
+            events = C.read_ndjson(trace)
+        rec = dict(pv)
+        rec["verdict"] = rec.pop("v")
+        rec["i"] = v["i"]
+        out.verdict(rec, events[v["i"] - 1])
+    out.traces += n
+    os.unlink(trace)
+    return st["events"]
+
+
 def run_factory(out, prop, tier, wd):
     """names of MC_Name.tla through create_element / create_attribute / create_processing_instruction /
     set_attribute"""
@@ -114,9 +159,11 @@ def run(prop, tier):
     try:
         tot = run_chardata(out, prop, tier, wd)
         names = 0
+        attr_events = 0
         if prop == "C15":
             names = run_factory(out, prop, tier, wd)
-        out.evaluations = tot["events"] + names * 4
+            attr_events = run_attrs(out, prop, tier, wd)
+        out.evaluations = tot["events"] + names * 4 + attr_events
         out.nontrivial_count = tot["edges"] + names
         out.extra.update(tot)
         out.extra["factory_names"] = names
